@@ -125,6 +125,14 @@ def stress_inputs(tier):
     mixin_queries = (f"query Mixed {{ user {mx('Auditable', 'Printable', 'Auditable')} {{ id friend {mx('Zed', 'Alpha', 'Mid', 'Beta', 'Alpha')} {{ id }} }} node {mx('Printable', 'Auditable')} {{ id }} }}\n"
                      f"query UsesFrag {{ user {{ ...MixFrag }} nodes {mx('Beta', 'Beta', 'Alpha')} {{ id }} }}\nfragment MixFrag on User {mx('Cc', 'Aa', 'Bb', 'Aa', 'Cc')} {{ id name }}\n")
     s.append(dict(label="repeated_mixins", strategy="client", schema=corpus.SCHEMA_K, queries=mixin_queries, options={}))
+    # builder classes for types implementing several interfaces that declare the same field with different types (interface chains included)
+    conflict_schema = ("interface Node { id: ID! owner: Node label(short: Boolean): String }\ninterface Entity { id: ID! owner: Entity label(lang: String): String }\n"
+                       "interface Resource implements Node { id: ID! owner: Node label(short: Boolean): String size: Int }\ninterface Principal implements Entity { id: ID! owner: Principal label(lang: String): String }\n"
+                       "type Document implements Node & Entity & Resource { id: ID! owner: Document label(short: Boolean, lang: String): String size: Int }\n"
+                       "type Person implements Principal & Entity & Node { id: ID! owner: Person label(lang: String, short: Boolean): String }\n"
+                       "union Anything = Document | Person\ntype Query { doc: Document who: Person node: Node entity: Entity any: Anything }\n")
+    s.append(dict(label="custom_operations_interface_field_conflicts", strategy="client", schema=conflict_schema, queries="query GetDoc { doc { id owner { id } } node { id ... on Person { label } } }\n",
+                  options={"enable_custom_operations": True}))
     parts = split_schema()
     same = {"types.graphql": parts["b_types.graphql"], "a/types.graphql": parts["a/interfaces.graphqls"], "b/types.graphql": parts["a/deep/unions.gql"], "b/c/types.graphql": parts["z.graphql"]}
     s.append(dict(label="same_file_names_in_subdirs", strategy="client", schema=same,
